@@ -51,7 +51,7 @@ func extraC15(c *Ctx, r *Report) {
 			}
 			key := fmt.Sprintf("%s:Set(%s)", fname(f), canon)
 			guarded := false
-			for _, cf := range condFacts(in.Block()) {
+			for _, cf := range normFacts(condFacts(in.Block())) {
 				bo, ok := cf.Cond.(*ssa.BinOp)
 				if !ok || bo.Op != token.EQL || !cf.True {
 					continue
@@ -115,7 +115,7 @@ func extraC19(c *Ctx, r *Report) {
 			if ci.Pkg == "sync/atomic" && strings.HasPrefix(ci.Name, "Add") && isField(cc.Args[0], "internal/adapter/stats", "endpointData", "activeConnections") {
 				// an Add is fine only under delta > 0
 				pos := false
-				for _, cf := range condFacts(in.Block()) {
+				for _, cf := range normFacts(condFacts(in.Block())) {
 					if bo, ok := cf.Cond.(*ssa.BinOp); ok && bo.Op == token.GTR && cf.True {
 						if k, ok := constInt(bo.Y); ok && k == 0 {
 							pos = true
@@ -376,7 +376,7 @@ func extraC06(c *Ctx, r *Report) {
 		if bi, ok := call.Call.Value.(*ssa.Builtin); !ok || bi.Name() != "append" {
 			return
 		}
-		for _, cf := range condFacts(in.Block()) {
+		for _, cf := range normFacts(condFacts(in.Block())) {
 			bo, ok := cf.Cond.(*ssa.BinOp)
 			if !ok || bo.Op != token.EQL || !cf.True {
 				continue
@@ -468,6 +468,46 @@ func extraC06(c *Ctx, r *Report) {
 				tierOK = true
 			}
 		})
+	}
+	// … or collected from an iterator helper that yields the leading run `sorted[i].Priority == sorted[0].Priority`
+	if !tierOK {
+		for _, a := range fn.AnonFuncs {
+			eachInstr(a, func(in ssa.Instruction) {
+				call, ok := in.(*ssa.Call)
+				if !ok {
+					return
+				}
+				if bi, ok := call.Call.Value.(*ssa.Builtin); !ok || bi.Name() != "append" || len(call.Call.Args) < 2 {
+					return
+				}
+				for _, e := range variadicElems(call.Call.Args[1]) {
+					for _, ys := range iteratorYieldSites(c, e) {
+						for _, cf := range normFacts(condFacts(ys.Block())) {
+							bo, ok := cf.Cond.(*ssa.BinOp)
+							if !ok || bo.Op != token.EQL || !cf.True {
+								continue
+							}
+							if !mentionsField(bo.X, pkgDomain, "Endpoint", "Priority", 3) || !mentionsField(bo.Y, pkgDomain, "Endpoint", "Priority", 3) {
+								continue
+							}
+							for _, side := range []ssa.Value{bo.X, bo.Y} {
+								if ld, ok := side.(*ssa.UnOp); ok {
+									if fa, ok := ld.X.(*ssa.FieldAddr); ok {
+										if ld2, ok := fa.X.(*ssa.UnOp); ok {
+											if ia, ok := ld2.X.(*ssa.IndexAddr); ok {
+												if k, ok := constInt(ia.Index); ok && k == 0 {
+													tierOK = true
+												}
+											}
+										}
+									}
+								}
+							}
+						}
+					}
+				}
+			})
+		}
 	}
 	key2 := fname(fn) + ":tier-membership"
 	if tierOK {
@@ -580,7 +620,7 @@ func extraBodyPreserver(c *Ctx, r *Report, rule string) {
 			bo, ok := v.(*ssa.BinOp)
 			return ok && bo.Op == token.EQL && mentionsField(bo.X, "net/http", "Request", "Body", 3)
 		}
-		for _, cf := range condFacts(ret.Block()) {
+		for _, cf := range normFacts(condFacts(ret.Block())) {
 			if cf.True && bodyTest(cf.Cond) {
 				absent = true
 			}
